@@ -41,6 +41,48 @@ def _bool_key(body, bb):
     return ((root, tuple(fields)), tt, ft)
 
 
+def _merge_locals(body):
+    """bool locals that are only ever assigned boolean constants (the materialised result of `a && b`, `matches!(..)`,
+    `if let .. else ..` expressions): {local: {block: [values in statement order]}}"""
+    out = {}
+    mb = flow.mut_borrowed(body)
+    for local, defs in body.defs().items():
+        if body.locals[local] != "bool" or not defs or local in mb or local <= body.argc:
+            continue
+        ok = True
+        per = {}
+        for d in defs:
+            if d[0] != "stmt" or len(d[3]) != 1:
+                ok = False
+                break
+            rv = d[4]
+            if rv[0] == "use" and rv[1][0] == "k" and isinstance(rv[1][1].get("v"), bool):
+                per.setdefault(d[1], []).append(rv[1][1]["v"])
+            else:
+                ok = False
+                break
+        if ok and len(defs) >= 2:
+            out[local] = per
+    return out
+
+
+def _merge_switch(body, bb, merges):
+    """switch directly on a merge local (possibly through `Not`): (local, true_target, false_target)"""
+    t = body.term(bb)
+    if t["k"] != "switch" or t["discr_ty"] != "bool" or t["discr"][0] not in ("c", "m"):
+        return None
+    p = t["discr"][1]
+    if len(p) != 1 or p[0] not in merges:
+        return None
+    zero = None
+    for v, x in t["targets"]:
+        if v == "0":
+            zero = x
+    if zero is None:
+        return None
+    return (p[0], t["otherwise"], zero)
+
+
 def reachable_under(body, forced, track_bools=True, max_states=20000):
     """blocks reachable from entry when `forced(body, bb)` (-> successor block or None) decides some switches
     and bool tests on immutable paths stay consistent. Returns dict block -> one witness state (frozenset)."""
@@ -49,8 +91,18 @@ def reachable_under(body, forced, track_bools=True, max_states=20000):
     reach = {0: frozenset()}
     work = [start]
     cache = {}
+    merges = _merge_locals(body) if track_bools else {}
+    assigns = {}
+    for l, per in merges.items():
+        for b_, vals in per.items():
+            assigns.setdefault(b_, []).append((l, vals[-1]))
     while work:
         bb, st = work.pop()
+        if bb in assigns:
+            d0 = dict(st)
+            for l, v in assigns[bb]:
+                d0[("mlocal", l)] = v
+            st = frozenset(d0.items())
         if len(seen) > max_states:
             # give up path sensitivity: fall back to plain reachability (sound over-approximation)
             for b in body.reachable_from(0):
@@ -63,7 +115,8 @@ def reachable_under(body, forced, track_bools=True, max_states=20000):
             bk = None
             if track_bools:
                 if bb not in cache:
-                    cache[bb] = _bool_key(body, bb)
+                    ms = _merge_switch(body, bb, merges)
+                    cache[bb] = ((("mlocal", ms[0]), ms[1], ms[2]) if ms else _bool_key(body, bb))
                 bk = cache[bb]
             if bk is not None:
                 key, tt, ft = bk
